@@ -124,6 +124,15 @@ func init() {
 		in.ghost.effMon = true
 		return nil
 	}
+	intrinsics[H("vGuard")] = func(in *Interp, fr *frame, args []Value) Value {
+		// vGuard(&field, &mutex): both arrive as interfaces holding pointers
+		f, _ := args[0].(Iface).V.(*Value)
+		m, _ := args[1].(Iface).V.(*Value)
+		if f != nil && m != nil {
+			in.ghost.guards[f] = m
+		}
+		return nil
+	}
 	intrinsics[H("vUnshare")] = func(in *Interp, fr *frame, args []Value) Value {
 		in.ghost.effMon = false
 		return nil
